@@ -1,0 +1,243 @@
+//go:build verif
+
+package storage
+
+import (
+	"bytes"
+	"container/list"
+	"fmt"
+	"io"
+)
+
+// Read-only accessors for a simulator (build tag `verif` only). None of them
+// changes the recency order of the page cache unless its name says so.
+
+// VerifCellView is the logical content of one cell.
+type VerifCellView struct {
+	Key     uint32
+	Deleted bool   // leaf only
+	Val     []byte // leaf only
+	Child   uint64 // internal only
+}
+
+// VerifNodeView is the logical content of one tree node, cells in key-slot
+// (offset array) order.
+type VerifNodeView struct {
+	Leaf     bool
+	Offset   uint64
+	LSN      uint64
+	HasLSib  bool
+	HasRSib  bool
+	LSib     uint64
+	RSib     uint64
+	Right    uint64
+	Cells    []VerifCellView
+	Dirty    bool
+	SlotsOK  bool // every offset-array entry indexes an existing cell
+	NumSlots int
+}
+
+// VerifView returns the logical content of the node.
+func (n *btreeNode) VerifView() VerifNodeView {
+	v := VerifNodeView{
+		Leaf:     n.isLeaf,
+		Offset:   n.fileOffset,
+		LSN:      n.lastLSN,
+		Dirty:    n.dirty,
+		SlotsOK:  true,
+		NumSlots: len(n.offsets),
+	}
+	if n.isLeaf {
+		v.HasLSib, v.HasRSib, v.LSib, v.RSib = n.hasLSib, n.hasRSib, n.lSibFileOffset, n.rSibFileOffset
+		for _, o := range n.offsets {
+			if int(o) >= len(n.leafCells) || n.leafCells[o] == nil {
+				v.SlotsOK = false
+				continue
+			}
+			c := n.leafCells[o]
+			v.Cells = append(v.Cells, VerifCellView{Key: c.key, Deleted: c.deleted, Val: append([]byte(nil), c.valueBytes...)})
+		}
+	} else {
+		v.Right = n.rightOffset
+		for _, o := range n.offsets {
+			if int(o) >= len(n.internalCells) || n.internalCells[o] == nil {
+				v.SlotsOK = false
+				continue
+			}
+			c := n.internalCells[o]
+			v.Cells = append(v.Cells, VerifCellView{Key: c.key, Child: c.fileOffset})
+		}
+	}
+	return v
+}
+
+// VerifIsDirty reports the dirty flag of the node.
+func (n *btreeNode) VerifIsDirty() bool { return n.dirty }
+
+// VerifOffset reports the file offset of the node.
+func (n *btreeNode) VerifOffset() uint64 { return n.fileOffset }
+
+// VerifDecodePage decodes one raw page with the real decoder.
+func VerifDecodePage(b []byte) (v VerifNodeView, err error) {
+	defer func() {
+		if r := recover(); r != nil {
+			err = fmt.Errorf("panic while decoding page: %v", r)
+		}
+	}()
+	if len(b) == 0 {
+		return v, fmt.Errorf("empty page")
+	}
+	n := &btreeNode{}
+	switch b[0] {
+	case InternalNode:
+	case LeafNode:
+		n.isLeaf = true
+	default:
+		return v, fmt.Errorf("invalid node type value %d", b[0])
+	}
+	if err := n.decode(bytes.NewBuffer(b)); err != nil {
+		return v, err
+	}
+	return n.VerifView(), nil
+}
+
+// VerifPageSize is the size of one serialized page.
+const VerifPageSize = pageSize
+
+// Capacity constants.
+const (
+	VerifMaxLeafCells     = maxLeafNodeCells
+	VerifMaxInternalCells = maxInternalNodeCells
+	VerifMaxValueSize     = maxValueSize
+)
+
+// VerifHeader returns the in-memory header fields of the store.
+func (f *fileStore) VerifHeader() (lastKey uint32, pageTableRoot, nextFreeOffset, nextLSN uint64) {
+	return f.lastKey, f.pageTableRoot, f.nextFreeOffset, f._nextLSN
+}
+
+// VerifSetCacheCap replaces the (still empty) page cache of a store that was
+// just opened with one of the given capacity.
+func (f *fileStore) VerifSetCacheCap(n int) {
+	if len(f.cache.cache) != 0 {
+		panic("VerifSetCacheCap on a used cache")
+	}
+	f.cache = NewLRU(n)
+}
+
+// VerifCache returns the cache of the store.
+func (f *fileStore) VerifCache() *LRUCache { return f.cache }
+
+// VerifPeek returns the logical view of the page at offset: the cached node
+// if there is one (without touching the recency order), else a decode of the
+// bytes in the data file (without caching it).
+func (f *fileStore) VerifPeek(offset uint64) (v VerifNodeView, cached bool, err error) {
+	if e, ok := f.cache.cache[offset]; ok {
+		return e.Value.(*cacheEntry).val.VerifView(), true, nil
+	}
+	buf := make([]byte, pageSize)
+	if _, err := f.file.ReadAt(buf, int64(offset)); err != nil && err != io.EOF {
+		return v, false, err
+	}
+	v, err = VerifDecodePage(buf)
+	return v, false, err
+}
+
+// VerifEntry is one cache entry as seen from outside.
+type VerifEntry struct {
+	Key   uint64
+	Dirty bool
+	Node  *VerifNode
+}
+
+// VerifEntries lists the cache entries from most to least recently used.
+func (l *LRUCache) VerifEntries() []VerifEntry {
+	var out []VerifEntry
+	for e := l.list.Front(); e != nil; e = e.Next() {
+		ce := e.Value.(*cacheEntry)
+		k, _ := ce.key.(uint64)
+		out = append(out, VerifEntry{Key: k, Dirty: ce.val.isDirty(), Node: ce.val})
+	}
+	return out
+}
+
+// VerifLen returns the number of index entries and of list entries.
+func (l *LRUCache) VerifLen() (int, int) { return len(l.cache), l.list.Len() }
+
+// VerifCap returns the capacity.
+func (l *LRUCache) VerifCap() int { return l.maxNodes }
+
+// VerifReorder moves the entries with the given keys to the front of the
+// recency list so that keys[0] ends up most recent. A flush touches its pages
+// in Go map iteration order; a simulator calls this after the write loop to
+// replace that order by one it chose, which is one of the orders the real
+// code can produce.
+func (l *LRUCache) VerifReorder(keys []uint64) {
+	for i := len(keys) - 1; i >= 0; i-- {
+		if e, ok := l.cache[keys[i]]; ok {
+			l.list.MoveToFront(e)
+		}
+	}
+}
+
+// Stand-alone cache driver.
+
+func VerifNewNode(offset uint64, dirty bool) *VerifNode {
+	return &btreeNode{isLeaf: true, fileOffset: offset, dirty: dirty}
+}
+func (n *btreeNode) VerifSetDirty(d bool) {
+	if d {
+		n.markDirty(n.lastLSN)
+	} else {
+		n.markClean()
+	}
+}
+func (l *LRUCache) VerifSet(key uint64, n *VerifNode) bool { return l.set(key, n) }
+func (l *LRUCache) VerifGet(key uint64) (*VerifNode, bool) { return l.get(key) }
+func (l *LRUCache) VerifList() *list.List                  { return l.list }
+func (rs *RelationService) VerifStore() *VerifStore        { return rs.fs }
+func (rs *RelationService) VerifWalFile() any              { return rs.wal.reader }
+func (f *fileStore) VerifFlush() error                     { return f.flushPages() }
+func (f *fileStore) VerifAutoFlush() bool                  { return f.autoFlushCache }
+func (f *fileStore) VerifFileName() string                 { return f.file.Name() }
+func VerifEncodeNode(n *VerifNode) ([]byte, error) {
+	b, err := n.encode()
+	if err != nil {
+		return nil, err
+	}
+	return b.Bytes(), nil
+}
+
+// VerifFindCell runs the real point lookup from the given root.
+func (f *fileStore) VerifFindCell(root uint64, key uint32) (found bool, deleted bool, err error) {
+	defer func() {
+		if r := recover(); r != nil {
+			err = fmt.Errorf("panic in findCell: %v", r)
+		}
+	}()
+	bt := &BTree{store: f, rootOffset: root}
+	c, err := bt.findCell(key)
+	if err != nil {
+		return false, false, err
+	}
+	if c == nil {
+		return false, false, nil
+	}
+	return true, c.deleted, nil
+}
+
+// VerifScanLeft runs the real right-to-left scan from the given root and
+// returns the keys it visits (live cells only, like the scan itself).
+func (f *fileStore) VerifScanLeft(root uint64) (keys []uint32, err error) {
+	defer func() {
+		if r := recover(); r != nil {
+			err = fmt.Errorf("panic in scanLeft: %v", r)
+		}
+	}()
+	bt := &BTree{store: f, rootOffset: root}
+	err = bt.scanLeft(func(c *leafCell) (ScanAction, error) {
+		keys = append(keys, c.key)
+		return KeepScanning, nil
+	})
+	return keys, err
+}
